@@ -465,7 +465,7 @@ func checkDiscipline(w *World, r *Report, la *LockAnalysis, filter func(sharedSt
 	}
 
 	accesses := collectAccesses(w, la, func(v *types.Var) bool { _, ok := structOf[v]; return ok })
-	sort.SliceStable(accesses, func(i, j int) bool { return accesses[i].Sel.Pos() < accesses[j].Sel.Pos() })
+	sort.SliceStable(accesses, func(i, j int) bool { return posLess(accesses[i].Sel.Pos(), accesses[j].Sel.Pos()) })
 
 	// infer discipline of untabled fields from their accesses
 	untabled := map[*types.Var][]*Access{}
@@ -571,7 +571,7 @@ func checkDiscipline(w *World, r *Report, la *LockAnalysis, filter func(sharedSt
 	for v := range untabled {
 		uf = append(uf, v)
 	}
-	sort.Slice(uf, func(i, j int) bool { return uf[i].Pos() < uf[j].Pos() })
+	sort.Slice(uf, func(i, j int) bool { return posLess(uf[i].Pos(), uf[j].Pos()) })
 	for _, v := range uf {
 		as := untabled[v]
 		ss := structOf[v]
